@@ -141,6 +141,8 @@ def harnesses(tier):
         for s in seqs:
             out.append(history(t, s, timeout=60 if tier == "quick" else 240))
         out.append(history(t, ("fa", "fb", "add"), special=True, timeout=90))
+        out.append(history(t, ("fa", "mul"), special=True, timeout=90))
+        out.append(history(t, ("fa", "fb", "iadd", "mul"), special=True, timeout=120))
     deep = cat.deep() + [t for i, t in enumerate(cat.slot()) if i % (16 if tier == "quick" else 3) == 7]
     for t in deep:
         for s in (("fa", "fb", "add"), ("fa", "fb", "iadd", "mul")):
